@@ -21,18 +21,24 @@ EXTENDS EduceRun
 \* "TU"   : <T, U>
 \* "rich" : <'a, const N: usize, T: Bnd = u8> where T: Usr   (lifetime, const parameter, bounded + defaulted
 \*                                                            type parameter, user where-clause)
-GenDescs == {"TU", "rich"}
-TypeParamsOf(g) == IF g = "TU" THEN <<"T", "U">> ELSE <<"T">>
-ImplParamsOf(g) == IF g = "TU" THEN <<"T", "U">> ELSE <<"'a", "constN:usize", "T:Bnd">>   \* defaults dropped
-UserWhereOf(g)  == IF g = "TU" THEN {} ELSE {"T:Usr"}
+\* "wide" : <'a, 'b: 'a, T: ?Sized + Bnd, const N: usize = 2, U: Bnd = u8> where &'b T: Usr, U: Usr, [u8; N]: Sized
+\*          (a lifetime bound, an unsized type parameter with two bounds, a defaulted const and a defaulted type
+\*           parameter, a where-clause over compound types)
+GenDescs == {"TU", "rich", "wide"}
+TypeParamsOf(g) == CASE g = "TU" -> <<"T", "U">> [] g = "rich" -> <<"T">> [] OTHER -> <<"T", "U">>
+ImplParamsOf(g) ==                                                                     \* defaults dropped
+  CASE g = "TU" -> <<"T", "U">> [] g = "rich" -> <<"'a", "constN:usize", "T:Bnd">>
+    [] OTHER -> <<"'a", "'b:'a", "T:?Sized+Bnd", "constN:usize", "U:Bnd">>
+UserWhereOf(g)  == CASE g = "TU" -> {} [] g = "rich" -> {"T:Usr"} [] OTHER -> {"&'bT:Usr", "U:Usr", "[u8;N]:Sized"}
 
 \* ---------------------------------------------------------------- field type classes
 \* text of the field type (spaces removed) and whether it implements a trait, given which of the type
 \* parameters do (a = [T |-> BOOLEAN, U |-> BOOLEAN])
-PhantomAllText(g) == IF g = "TU" THEN "PhantomData<(T,U)>" ELSE "PhantomData<&'a[T;N]>"
+PhantomAllText(g) ==
+  CASE g = "TU" -> "PhantomData<(T,U)>" [] g = "rich" -> "PhantomData<&'a[T;N]>" [] OTHER -> "PhantomData<(&'au8,&'bT,[U;N])>"
 TyText(ty) ==
   CASE ty = "T" -> "T" [] ty = "U" -> "U" [] ty = "WrapT" -> "Wrap<T>" [] ty = "PhantomT" -> "PhantomData<T>"
-    [] ty = "PairTU" -> "(T,U)" [] ty = "conc" -> "u8" [] ty = "PhantomAll" -> "PhantomAll" [] ty = "A" -> "TA"
+    [] ty = "RefT" -> "&'bT" [] ty = "PairTU" -> "(T,U)" [] ty = "conc" -> "u8" [] ty = "PhantomAll" -> "PhantomAll" [] ty = "A" -> "TA"
     [] OTHER -> ty
 ImplTy(ty, a) ==
   CASE ty = "T" -> a.T [] ty = "U" -> a.U [] ty = "WrapT" -> a.T [] ty = "PairTU" -> a.T /\ a.U
